@@ -99,6 +99,8 @@ def run(tier):
             kinds += [dict(src='slow', step=s) for s in steps]
             kinds.append(dict(src='noseek', step=rng.choice(STEPS)))
             pol = rng.choice([dict(), dict(mis='skip', ovf='skip', utf='skip')])
+            if arch == 'csv' and rng.random() < 0.3:
+                pol = dict(pol, sep=rng.choice(['semicolon', 'tab', 'space', 'pipe']))      # the separator option must reach the memory and the stream reader alike
             for j, kd in enumerate(kinds):
                 cid = '%s_%d' % (base, j)
                 line = D.case_line('load', arch, typ, cid, doc=raw.hex(), **kd, **pol)
